@@ -112,6 +112,13 @@ func runSolver(ctx context.Context, s solverSpec, file string, timeoutS int) (st
 // solve races the solvers on one script. needTwo: require confirmation by a second solver
 // (thorough tier); the confirmation is best effort and recorded.
 func solve(script string, file string, timeoutS int, needTwo bool) solveResult {
+	return solveAlt(script, "", file, timeoutS, needTwo)
+}
+
+// solveAlt: like solve, and additionally races z3 5.1 / z3 4.8 on altScript, a variant of the same
+// obligation with fewer assumptions (the typing axioms dropped). Only `unsat` counts for the variant
+// (a proof from fewer assumptions is a proof; a model of it means nothing).
+func solveAlt(script string, altScript string, file string, timeoutS int, needTwo bool) solveResult {
 	sum := sha256.Sum256([]byte(script))
 	key := hex.EncodeToString(sum[:])
 	cfile := filepath.Join(cacheDir, key)
@@ -130,20 +137,38 @@ func solve(script string, file string, timeoutS int, needTwo bool) solveResult {
 		status, out, solver string
 		t                   float64
 	}
-	ch := make(chan res, len(solvers))
+	ch := make(chan res, len(solvers)+2)
 	start := time.Now()
+	jobs := 0
 	for _, s := range solvers {
 		s := s
+		jobs++
 		go func() {
 			st, out := runSolver(ctx, s, file, timeoutS)
 			ch <- res{st, out, s.name, time.Since(start).Seconds()}
 		}()
 	}
+	if altScript != "" && altScript != script {
+		altFile := strings.TrimSuffix(file, ".smt2") + ".noty.smt2"
+		if err := os.WriteFile(altFile, []byte(altScript), 0o644); err == nil {
+			for _, s := range solvers[:2] {
+				s := s
+				jobs++
+				go func() {
+					st, out := runSolver(ctx, s, altFile, timeoutS)
+					if st == "sat" {
+						st = "unknown" // fewer assumptions: a model of the variant refutes nothing
+					}
+					ch <- res{st, out, "noty:" + s.name, time.Since(start).Seconds()}
+				}()
+			}
+		}
+	}
 	var outs []string
 	var final *res
 	var confirmed string
 	errs := 0
-	for i := 0; i < len(solvers); i++ {
+	for i := 0; i < jobs; i++ {
 		r := <-ch
 		if r.status == "error" {
 			errs++
@@ -212,7 +237,11 @@ func solveAll(items []*solveItem, timeoutS int, needTwo bool, workers int) {
 					r = solveResult{status: "unknown", output: "[splitfirst] whole goal not attempted"}
 					os.WriteFile(it.file, []byte(script), 0o644)
 				} else {
-					r = solve(script, it.file, to, needTwo && !o.Vacuity)
+					alt := ""
+					if !o.Vacuity {
+						alt = it.w.scriptOpt(o, false, true)
+					}
+					r = solveAlt(script, alt, it.file, to, needTwo && !o.Vacuity)
 				}
 				o.Solver, o.TimeS, o.Output, o.SMTFile = r.solver, r.timeS, r.output, it.file
 				if r.confirmedBy != "" {
